@@ -46,3 +46,14 @@ Proof.
   intro E. symmetry in E. revert E.
   apply (crc32_burst32 j); try assumption. exact (bytes_ok_mid _ _ _ Hok).
 Qed.
+
+(* What is NOT true: "any burst of at most 32 bits anywhere in the stored value is detected".
+   The checksum is stored in front of the payload, so a burst over the last three checksum bytes and
+   the first payload byte (stored positions 2..5: 4 adjacent bytes) can turn one valid value into
+   another: payload 01 02 03 04 05 stored as 08 f4 99 0b 47 01 02 03 04 05, altered to
+   08 f4 62 2d 24 96 02 03 04 05. *)
+Lemma straddling_burst_undetected C g u :
+  le_enc 4 (crc32 [1;2;3;4;5]) = [244;153;11;71] /\
+  deserialize_gen C g [8; 244; 153;11;71;1; 2;3;4;5] u = Ok ([1;2;3;4;5], 0) /\
+  deserialize_gen C g [8; 244; 98;45;36;150; 2;3;4;5] u = Ok ([150;2;3;4;5], 0).
+Proof. destruct g, u; vm_compute; repeat split. Qed.
